@@ -48,6 +48,8 @@ extern volatile long vh_usleeps;
 extern void (*vh_hook_before_lock)(void);   /* before every trylock/lock attempt */
 extern void (*vh_hook_locked)(void);        /* after a successful acquisition */
 extern void (*vh_hook_unlocked)(void);      /* after a successful release */
+extern void (*vh_hook_lock_failed)(void);   /* after a failed trylock */
+extern void (*vh_hook_unlock_failed)(void); /* after a failed unlock (e.g. EPERM: not the owner) */
 
 /* ---- watchdog / crash reporting --------------------------------------------------- */
 void vh_watchdog(int seconds);              /* alarm(); on expiry a "timeout" event is written and the process exits 3 */
